@@ -64,6 +64,15 @@ def fresh_shared_errors():
 fresh_shared_errors()
 
 
+class UpstreamError(Exception):
+    """a plain (non library) exception carrying a non-string `message` attribute, like many client libraries' errors"""
+
+    def __init__(self, body):
+        super().__init__("upstream failure")
+        self.message = body
+        self.args = ("upstream failure", 17)
+
+
 def forget(name):
     """memory hygiene only: drop a schema name that no later history will use (private registry attribute, best effort)"""
     try:
@@ -99,6 +108,8 @@ def make_resolver(fq):
                 raise SHARED_PLAIN_ERROR
             if fault == "raise_te_ctor":
                 raise CtorError(list(path), "CTOR")
+            if fault == "raise_msgattr":
+                raise UpstreamError({"code": "not_found", "where": list(path)})
             if fault == "return_exc":
                 return Exception("returned at %s" % (list(path),))
             if fault == "none":
@@ -200,11 +211,19 @@ def make_source(fq):
         scn = scenario_of(ctx)
         scn.counters["source"] += 1
         scn.events.append(("source-start", fq, freeze(args)))
+        live = {}
         for i, ev in enumerate(list(scn.source_events)):
             if scn.sched is not None:
                 await scn.sched.point(("s", i))
             scn.events.append(("source-yield", i))
-            yield ev
+            if getattr(scn, "live_object", False) and isinstance(ev, dict):
+                # one live object updated in place and yielded again (a scoreboard, a refreshed model instance): legal because an
+                # async generator stays suspended at its `yield` until the consumer asks for the next event
+                live.clear()
+                live.update(ev)
+                yield live
+            else:
+                yield ev
         scn.events.append(("source-end", fq))
 
     return source
